@@ -1,25 +1,25 @@
 /- REGENERATED from /repo on every run by /verif/harness/cmd/extract — do not edit. -/
 namespace Ibx.Gen.Addr
 
-/-- bytes of the literal `parseEmailAddress` passes to strings.IndexByte (copied unquoted) -/
+/-- bytes of the one literal whose membership the raw address parser (the 3-result function ExtractMailbox calls with its parameter: parseEmailAddress) tests with strings.IndexByte — the specials copied unquoted -/
 def specials : Option (List Nat) := some [33, 35, 36, 37, 38, 39, 42, 43, 45, 47, 61, 63, 94, 95, 96, 123, 124, 125, 126]
 
-/-- bytes of the literal `parseMailboxName` passes to strings.IndexByte -/
+/-- bytes of the one literal whose membership the mailbox-name parser (the function ExtractMailbox calls with result 0 of the raw parser: parseMailboxName) tests with strings.IndexByte -/
 def nameSpecials : Option (List Nat) := some [33, 35, 36, 37, 38, 39, 42, 43, 45, 61, 47, 63, 94, 95, 96, 46, 123, 124, 125, 126]
 
-/-- address length test in parseEmailAddress -/
+/-- raw address parser: the one comparison of len(parameter) with an integer (operator, bound) -/
 def maxAddr : Option (String × Nat) := some (">", 320)
 
-/-- local-part length test in parseEmailAddress (index of the unquoted '@') -/
+/-- raw address parser: the one `>` comparison of the index of the loop over the parameter with an integer (local-part length, index of the unquoted '@') -/
 def maxLocal : Option (String × Nat) := some (">", 128)
 
-/-- domain length test in ValidateDomainPart -/
+/-- ValidateDomainPart: the one `len(parameter) > N` (a local holding len(parameter) counts as len(parameter)) -/
 def maxDomain : Option (String × Nat) := some (">", 255)
 
-/-- minimum length of a bracketed IP-literal domain -/
+/-- ValidateDomainPart: the one `len(parameter) >= N` (minimum length of a bracketed IP literal) -/
 def minBracket : Option (String × Nat) := some (">=", 4)
 
-/-- label length test in ValidateDomainPart -/
+/-- ValidateDomainPart: the one comparison of the label-length counter (the local that is ++'ed and reset to 0) with an integer -/
 def maxLabel : Option (String × Nat) := some (">", 63)
 
 end Ibx.Gen.Addr
